@@ -27,7 +27,7 @@ def parse_utc(s):
 def run(ck: Check) -> None:
     rng = ck.rng
     cases = []
-    for i in range(ck.n(700, 160)):
+    for i in range(ck.n(2500, 600)):
         a = rng.choice(CLOCKS)
         b = a      # one instant for the whole call: how many times (and in which order) the library reads the clock is its own business
         ks = [gen.key(j) for j in rng.sample(range(8), rng.randint(0, 3))]
@@ -57,14 +57,25 @@ def run(ck: Check) -> None:
             r = rng.random()
             if r < 0.6:
                 p[k] = rng.choice(BAD)
+            elif isinstance(p[k], list) and p[k] and rng.random() < 0.5:
+                # one key in another spelling of the same bytes (upper / mixed case, surrounding or inner whitespace, 0x prefix): refused, never re-spelled
+                j = rng.randrange(len(p[k]))
+                p[k] = p[k][:j] + [rng.choice(gen.alt_spellings(p[k][j]))] + p[k][j + 1:]
+                tag = "alt-spelling:" + k
             elif isinstance(p[k], list) and p[k]:
                 p[k] = p[k] + [rng.choice([p[k][0], p[k][0].upper(), "zz" * 32, 5])]
+            elif isinstance(p[k], dict) and p[k] and rng.random() < 0.3 and any(isinstance(d_, dict) and d_.get("pubkeys") for d_ in p[k].values()):
+                p[k] = copy.deepcopy(p[k])
+                d_ = rng.choice([d_ for d_ in p[k].values() if isinstance(d_, dict) and d_.get("pubkeys")])
+                j = rng.randrange(len(d_["pubkeys"]))
+                d_["pubkeys"][j] = rng.choice(gen.alt_spellings(d_["pubkeys"][j]))
+                tag = "alt-spelling:" + k
             elif isinstance(p[k], dict) and p[k]:
                 muts = mdgen.mutations(rng, p[k], per_path=1, max_total=25)
                 p[k] = rng.choice(muts)[0]
             else:
                 p[k] = rng.choice(BAD)
-            tag = "corrupted:" + k
+            tag = tag if tag.startswith("alt-spelling") else "corrupted:" + k
         if any(isinstance(v, (bytes, tuple)) for v in p.values() if not isinstance(v, proto.Opaque)):
             pass
         cases.append(Case("build", [which, a, b, p], tag=tag, group=i))
@@ -81,6 +92,9 @@ def run(ck: Check) -> None:
             continue
         md = proto.dec(r.impl[2:])
         ck.nontrivial_add(proto.enc(md)[:300])
+        if r.case.tag.startswith("alt-spelling"):
+            ck.violation("a metadata builder accepted a key given in a non-canonical spelling (the result cannot both pass the checker and carry the delegations verbatim)",
+                         {"which": which, "params": {k: repr(v)[:200] for k, v in p.items()}, "result": proto.enc(md)[:600]}, f"builder-accepts-alt-spelling:{which}")
         typ = p.get("metadata_type", "root")
         wrapped = {"signatures": {}, "signed": md}
         problems = []
